@@ -544,3 +544,52 @@ Proof.
   - apply of_c06_none.
   - apply of_c06_sound.
 Qed.
+
+(* ================= further corollaries ================= *)
+(* any payload type (any nesting depth of function constants), no hypothesis: every operation that holds no
+   function-valued constant -- take the guard that admits no payload at all, the payload's round trip is then
+   vacuous *)
+Definition no_payload {H : Type} (h : H) : bool := false.
+Definition codec_preserves_spec_no_function_constants H SH h_enc h_dec h_type :=
+  codec_preserves_spec H SH h_enc h_dec (fun h => h) h_type (@no_payload H)
+    (fun h (E : no_payload h = true) => match Bool.diff_false_true E with end).
+
+(* the translation forgets nothing but the description of an ExtOp's definition *)
+Definition forget_descr {H} (o : CodecOps.op H) : CodecOps.op H :=
+  match o with
+  | CodecOps.OExtOp d sig args =>
+      CodecOps.OExtOp {| od_ext := od_ext d; od_name := od_name d; od_descr := 0%N; od_poly := od_poly d |} sig args
+  | _ => o
+  end.
+Theorem of_c06_to_c06 H (o : CodecOps.op H) : of_c06 (to_c06 o) = Some (forget_descr o).
+Proof.
+  destruct o; cbn; rewrite ?fn_inv_fn, ?pl_inv_pl; try reflexivity.
+  - (* ExtOp *) destruct def as [e n dd [p|]], signature as [f|]; cbn; rewrite ?fn_inv_fn, ?pl_inv_pl; reflexivity.
+  - (* Tag *) destruct (Z.of_N tag <? 0) eqn:E; [lia|]. now rewrite N2Z.id.
+Qed.
+Corollary to_c06_injective H (o1 o2 : CodecOps.op H) : to_c06 o1 = to_c06 o2 -> forget_descr o1 = forget_descr o2.
+Proof. intros E. pose proof (of_c06_to_c06 H o1) as E1. rewrite E, of_c06_to_c06 in E1. now inversion E1. Qed.
+
+(* the two independent models of _CallOrLoad.__init__ agree: C05's guard [CallWF] (what the constructor can have
+   built) holds exactly when C06's constructor model [call_new] / [loadfunc_new] builds the translated operation *)
+Lemma fn_inj f g : fn f = fn g -> f = g.
+Proof. destruct f, g; cbn; intros E; now inversion E. Qed.
+Theorem call_constructors_agree H (sig : polytype) (inst : functype) (ta : list tyarg) :
+  (CallWF sig inst ta <-> call_new (pl sig) (Some (fn inst)) (Some ta) = Ret (to_c06 (CodecOps.OCall (H:=H) sig inst ta))) /\
+  (CallWF sig inst ta <-> loadfunc_new (pl sig) (Some (fn inst)) (Some ta) = Ret (to_c06 (CodecOps.OLoadFunc (H:=H) sig inst ta))).
+Proof.
+  assert (G : forall mk : polyfunc -> functy -> list tyarg -> op (V H),
+             (forall a b c a' b' c', mk a b c = mk a' b' c' -> b = b' /\ c = c') ->
+             (CallWF sig inst ta <-> call_or_load (V H) mk (pl sig) (Some (fn inst)) (Some ta) = Ret (mk (pl sig) (fn inst) ta))).
+  { intros mk Hinj. unfold CallWF, call_or_load. destruct sig as [ps body]. cbn [pl p_params pt_params pt_body p_body].
+    destruct ps as [|p ps].
+    - split.
+      + intros [-> ->]. reflexivity.
+      + intros E. inversion E as [E']. apply Hinj in E'. destruct E' as [E1 E2]. apply fn_inj in E1. now subst.
+    - split.
+      + intros E. cbn [length] in *. rewrite E, Nat.eqb_refl. reflexivity.
+      + destruct (Nat.eqb _ _) eqn:E; [|discriminate]. intros _. now apply Nat.eqb_eq in E. }
+  split.
+  - apply (G OCall). intros a b c a' b' c' E. now inversion E.
+  - apply (G OLoadFunc). intros a b c a' b' c' E. now inversion E.
+Qed.
